@@ -101,7 +101,8 @@ def run(ctx, replay=None):
         from . import repo
         plans = [dict(shape="chain", max_env=2, flags="m,c", extra="a;c,m,o", faults=False),
                  dict(shape="star", max_env=1, flags="m,c,o", faults=False, env="Edit,Touch,DeleteArt,StripKey,SetIssuer,RemoveConfig,AddConfig"),
-                 dict(shape="deep", max_env=1, flags="m,c", extra="c,m,o", faults=False, env="Edit,Touch,DeleteArt,StripKey")]     # four tiers
+                 dict(shape="deep", max_env=1, flags="m,c", extra="c,m,o", faults=False, env="Edit,Touch,DeleteArt,StripKey"),     # four tiers
+                 dict(shape="inherit", max_env=1, flags="m,c", faults=False, env="EditProfile,Edit")]      # "hash differs" when only the inherited validity of the profile changed
         if not ctx.quick:
             plans = [dict(shape="chain", max_env=3, flags="m,c,o", extra="a;e,m", faults=False),
                      dict(shape="star", max_env=2, flags="m,c,o,e", faults=False, env="Edit,Touch,DeleteArt,StripKey,SetIssuer,RemoveConfig,AddConfig,Expire"),
